@@ -69,6 +69,44 @@ CLAIMED = {
         "note": "trusted: Coq kernel, stdlib real axioms, translator (self-checked each run). Sampled clauses are not proved; say so in evidence.assumptions",
         "technique": "Coq proof (ring with trigonometric identities) over source-regenerated model; finite-difference and node-scan oracle on the implementation",
     },
+    "C06": {
+        "text": "Coq theorems over the model of sun_ecliptic_longitude, sun_ra_dec, cos_zen, sun_zenith_angle, get_alt_az and "
+                "sun_earth_distance_correction regenerated from astronomy.py on every run: for every instant 1950-2050 the code's ecliptic longitude, "
+                "obliquity and distance factor are within 0.0275 deg, 0.002 deg and 0.0015 AU of the Astronomical-Almanac low-precision formulas; (ra, dec) "
+                "are exactly the spherical coordinates of the ecliptic point; the sun direction is within a chord of 5.15e-4 (< 0.03 deg) of the Almanac "
+                "direction; cos_zen is the sun-zenith dot product, lies in [-1,1] and is within 5.16e-4 of the Almanac/IAU-82 value; azimuth = "
+                "atan2(east, north); zenith/altitude/arccos mutually consistent (the code's clip is the identity over the reals); zenith 0 / 180 at the "
+                "sub-solar point / antipode",
+        "design_ref": "DESIGN.md 5/C06",
+        "note": "trusted: Coq kernel, stdlib real axioms, FloatAxioms/Uint63 primitives used by Interval, translator (self-checked each run), independent "
+                "numpy Almanac oracle with UT1=UTC. Binary64 rounding and the angle-form 0.03 deg for zenith/altitude/azimuth are sampled, not proved. "
+                "One singular instant per year of the half-angle RA formula is excluded from the direction theorems and proved to exist (unreachable in binary64)",
+        "technique": "Coq proof over source-regenerated real-number model; Interval (Taylor models + bisection) for series bounds; atan2/half-angle library; IVT for the singular instant",
+    },
+    "C15": {
+        "text": "Coq theorems (no axioms) over a hand-written executable model of SQLiteTLE for histories of any length with crashes at every statement "
+                "boundary: row set = first-seen (text, source) per distinct (configured satellite, epoch), nothing for unconfigured satellites; flag iff a row "
+                "was added since open; a crash is indistinguishable from a reopen for every later observation; export = temporally newest first-seen entry "
+                "per platform with data, in configuration order, nothing unless added or write_always; bytewise order of the stored ISO strings = temporal "
+                "order incl. prefix-related whole-second strings. Correspondence of model and implementation after every operation on random, corpus and "
+                "bounded-exhaustive histories plus fetch_tles.run",
+        "design_ref": "DESIGN.md 5/C15",
+        "note": "trusted: Coq kernel, sqlite semantics (unique-key insert, transaction atomicity, BINARY text order), crash = exception at a statement "
+                "boundary through a proxy on db.db, epoch taken from the parsed Tle, insertion_time not modelled; platform_names may permanently lack a row "
+                "after a crash (proved; not required by the property)",
+        "technique": "refinement proof in Coq to a history-level abstract spec + Coq-evaluated (vm_compute) history correspondence with crash injection",
+    },
+    "C17": {
+        "text": "Coq theorems (no axioms) over a hand-written model of fetch_plain_tle / fetch_spacetrack and of the line scanner, for unbounded source and "
+                "URI lists: any result is the per-source in-order concatenation with every configured source present; a non-200 URI is equivalent to its "
+                "deletion; a result implies no timeout and a reached timeout is TleDownloadTimeoutError; text without a line starting '1 ' yields no entries; "
+                "the Space-Track case table. Every outcome assignment over <= 5 URIs in <= 3 sources is run on the implementation under an interposed "
+                "requests layer and on the model inside Coq",
+        "design_ref": "DESIGN.md 5/C17",
+        "note": "trusted: Coq kernel, interposed requests (status_code/text, Timeout subclasses), TLE lines abstracted to 5 classes; known finding "
+                "C17:body-line-starting-with-1-not-tle is modelled faithfully and proved as C17_line1_refuted",
+        "technique": "Coq proof by induction over the fetch loops + exhaustive Coq-evaluated correspondence",
+    },
 }
 
 _PENDING = "model and theorems not built yet in this round; not claimed on sampling alone (see DESIGN.md 10)"
